@@ -243,7 +243,8 @@ def chkpnt (s : St) (cut : Option Cut := none) : St :=
 /-- a single failing call while user `u`'s file is written: open / close / rename failures leave the live
 file as it was (the dot-file is unlinked); the check-pointing of the other users goes on -/
 def chkpntFault (s : St) (u : Nat) : St :=
-  let fs := (chkpntUsers s).foldl (fun fs v => if v == u then fs else setFile fs v (tasksOf s v)) s.files
+  -- the fault is a single failing call: only the first time `u` comes up in the dirty list is lost
+  let fs := ((chkpntUsers s).erase u).foldl (fun fs v => setFile fs v (tasksOf s v)) s.files
   { s with files := fs, dirty := [] }
 
 /-- a new daemon on the spool: `echsd_inject_queues` → `_inject_task1(t, NOT_A_UID)` for every task of every file -/
